@@ -109,18 +109,35 @@ static void q_push(conn *c, const unsigned char *p, size_t n, int fin) {
   if (c->qt) c->qt->next = f; else c->qh = f;
   c->qt = f;
 }
-/* one masked binary WebSocket frame (RFC 6455) carrying these bytes = one fragment */
-static void q_push_ws(conn *c, const unsigned char *p, size_t n) {
-  unsigned char *f = (unsigned char *)malloc(n + 14); size_t h = 0, i; unsigned char m[4];
-  c->wsmask = c->wsmask * 1103515245u + 12345u;
-  m[0] = c->wsmask >> 24; m[1] = c->wsmask >> 16; m[2] = c->wsmask >> 8; m[3] = c->wsmask;
-  f[h++] = 0x82;
+/* one masked WebSocket frame (RFC 6455) = one fragment of the stream */
+static unsigned ws_rand(conn *c) { c->wsmask = c->wsmask * 1103515245u + 12345u; return c->wsmask >> 8; }
+static void q_push_frame(conn *c, int opcode, int fin, const unsigned char *p, size_t n) {
+  unsigned char *f = (unsigned char *)malloc(n + 14); size_t h = 0, i; unsigned char m[4]; unsigned r = ws_rand(c);
+  m[0] = r >> 16; m[1] = r >> 8; m[2] = r; m[3] = r >> 4;
+  f[h++] = (unsigned char)((fin ? 0x80 : 0) | opcode);
   if (n < 126) f[h++] = 0x80 | (unsigned char)n;
   else if (n < 65536) { f[h++] = 0x80 | 126; f[h++] = (unsigned char)(n >> 8); f[h++] = (unsigned char)n; }
   else { int k; f[h++] = 0x80 | 127; for (k = 7; k >= 0; k--) f[h++] = (unsigned char)((unsigned long long)n >> (8 * k)); }
   memcpy(f + h, m, 4); h += 4;
   for (i = 0; i < n; i++) f[h + i] = p[i] ^ m[i & 3];
   q_push(c, f, h + n, 0); free(f);
+}
+/* ws == 1: every fragment is one unfragmented binary message;
+ * ws == 2: every fragment is a FRAGMENTED message (binary FIN=0, continuation..., continuation FIN=1);
+ * ws == 3: as 2, with ping/pong control frames (which RFC 6455 allows there) between the fragments and messages */
+static void q_push_ws(conn *c, const unsigned char *p, size_t n) {
+  static const unsigned char pingdata[5] = {'v', 'e', 'r', 'i', 'f'};
+  if (c->ws >= 3 && ws_rand(c) % 3 == 0) q_push_frame(c, (ws_rand(c) & 1) ? 0x9 : 0xA, 1, pingdata, ws_rand(c) % 6);
+  if (c->ws == 1 || n < 2) { q_push_frame(c, 0x2, 1, p, n); return; }
+  { size_t k = 2 + ws_rand(c) % 2, i, off = 0;           /* 2 or 3 pieces */
+    if (k > n) k = n;
+    for (i = 0; i < k; i++) {
+      size_t len = (i == k - 1) ? n - off : 1 + ws_rand(c) % (n - off - (k - 1 - i));
+      q_push_frame(c, i == 0 ? 0x2 : 0x0, i == k - 1, p + off, len);
+      off += len;
+      if (c->ws >= 3 && i < k - 1 && ws_rand(c) % 2 == 0)
+        q_push_frame(c, (ws_rand(c) & 1) ? 0x9 : 0xA, 1, pingdata, ws_rand(c) % 6);
+    } }
 }
 static void q_clear(conn *c) { while (c->qh) { frag *f = c->qh; c->qh = f->next; free(f->p); free(f); } c->qt = NULL; }
 
@@ -310,7 +327,9 @@ int main(void) {
     if (!S) { printf("?? no screen: %s\n", line); continue; }
     if (!strcmp(op, "connect") || !strcmp(op, "wsconnect")) {
       int sv[2], i, sz = 4 << 20; conn *c = NULL; int isws = op[0] == 'w';
-      n = sscanf(line + pos, "%d %d", &a[0], &a[1]);
+      a[2] = 1;
+      n = sscanf(line + pos, "%d %d %d", &a[0], &a[1], &a[2]);     /* wsconnect: optional framing mode 1..3 */
+      if (n == 3) n = 2;
       for (i = 0; i < MAXC; i++) if (!C[i].used) { c = &C[i]; break; }
       if (n != 2 || !c || by_id(a[0]) || socketpair(AF_UNIX, SOCK_STREAM, 0, sv) < 0) { printf("?? %s\n", line); continue; }
       fcntl(sv[1], F_SETFL, fcntl(sv[1], F_GETFL) | O_NONBLOCK);
@@ -327,7 +346,7 @@ int main(void) {
         q_push(c, (const unsigned char *)req, sizeof req - 1, 0);   /* arrives when the server peeks */
       }
       c->cl = rfbNewClient(S, sv[0]);
-      if (c->cl) c->ws = isws;
+      if (c->cl) c->ws = isws ? (a[2] >= 1 && a[2] <= 3 ? a[2] : 1) : 0;
       drain_all();
       print_state(op); continue;
     }
